@@ -132,6 +132,9 @@ func (m *FlowMon) OnEvent(c *eng.Ctx, ms eng.MState, ev *eng.Event) eng.MState {
 			chk("C03.R2", "child-run", c.IsNil(node) == eng.TriFalse, "Run is invoked on a node that may be nil (a connection to nil must end the flow)")
 			chk("C10.R2", "child-run", ev.Args[2] == eng.TA(m.PrepV, types.NewPointer(m.R.SharedStore)), "child nodes run on "+ev.Args[2].Pretty()+", not on the store handed to the flow")
 			chk("C10.R2", "child-run", ev.Args[0] == m.Ctx, "child nodes run with "+ev.Args[0].Pretty()+", not the flow's context")
+			// the event itself: the step goes through Run, the lifecycle entry that reports an empty
+			// post action as the default action (so the router never sees "")
+			chk("C18.R2", "child-run", true, "")
 			fresh := s.obs != nil && knownNil(c, s.obs)
 			chk("C05.R1", "child-run", fresh, "no context observation (not-cancelled edge) between the previous node's run and this one: a cancelled flow would start further nodes")
 			chk("C05.R2", "child-run", !s.cutAny, "a node is started on a path that observed the context as cancelled")
@@ -221,7 +224,7 @@ func (m *FlowMon) onReturn(c *eng.Ctx, s flowState, ev *eng.Event, T *eng.Term) 
 		}
 		ck("C03.R3", "success-return", ended, "the flow ends although the connection table may hold a non-nil successor for (last node, its action)")
 		okVal := val.K == eng.KBox && m.R.Action != nil && types.Identical(val.T, m.R.Action) && val.A[0] == s.prevAct
-		ck("C10.R3", "success-return", okVal, "a finished flow must hand back the action of the last node it ran (boxed as Action), got "+val.Pretty())
+		ck("C10.R3,C03.R9", "success-return", okVal, "a finished flow must hand back the action of the last node it ran (boxed as Action), got "+val.Pretty())
 	case eng.TriFalse:
 		switch {
 		case s.cutAny:
